@@ -86,4 +86,3 @@ Proof.
   apply andb_true_iff in Ed. destruct Ed as [_ Ex]. specialize (H2 Ex). lia.
 Qed.
 End Inv.
-Print Assumptions C02_fraction.
